@@ -1,6 +1,7 @@
 import TrionModel.Lemmas.AsmFile
 import TrionModel.Lemmas.AsmEnc
 import TrionModel.Lemmas.AsmLoud
+import TrionModel.Lemmas.AsmDiagPos
 /-!
 # C06 — every input yields success or diagnostics, never a crash: the whole pipeline
 
@@ -125,10 +126,34 @@ theorem run_outcome (fs : Bytes → Option Bytes) (main : Bytes) (o : Outcome) (
         all_goals cases h
     all_goals cases h
 
-/-
-FULL-STRENGTH STATEMENT (kept visible):
-    theorem diag_has_pos : run fs main = .done o → ∀ d ∈ o.diags, d.file ≠ [] ∧ 1 ≤ d.line ∧ 1 ≤ d.col
--/
+/-- C06.diag_has_pos  Every recorded diagnostic names a file and carries a line ≥ 1 and a column ≥ 1.
+Hypothesis (necessary): the empty path is not a file — an `.include ""` next to a file without directory part
+would otherwise assemble a file whose name is the empty string; it also makes `main ≠ []` (the main file exists).
+(Lemmas/AsmPos.lean: every token, tokenizer error, end position, parser error and element has line, col ≥ 1;
+Lemmas/AsmDiagPos.lean: the invariant "all recorded diagnostics and all queued tasks carry proper positions".) -/
+theorem diag_has_pos (fs : Bytes → Option Bytes) (main : Bytes) (hfs : fs [] = none)
+    (o : Outcome) (h : run fs main = .done o) : ∀ d ∈ o.diags, d.file ≠ [] ∧ 1 ≤ d.line ∧ 1 ≤ d.col := by
+  unfold run runWith at h
+  split at h
+  · cases h
+  · rename_i data hdata
+    split at h
+    · rename_i st res ha
+      have hinit : Pok St.init := ⟨fun _ hd => by simp [St.init] at hd, by simp [St.init], trivial⟩
+      have w := assembleFile_pok fs hfs encoder maxDepth _ _ _ _ _ _ hdata hinit ha
+      split at h
+      · cases h
+        intro d hd
+        exact w.1 d (by simpa using hd)
+      · cases h
+      · split at h
+        · rename_i st' fin hf
+          cases h
+          have w2 := (fun hp => finalize_pok hp hf) w
+          intro d hd
+          exact w2.1 d (by simpa using hd)
+        all_goals cases h
+    all_goals cases h
 
 /-- non-vacuity: the panic outcome is a real outcome of the model's primitives outside the invariant
 ("no local scope"), the initial state satisfies the invariant, and the main file need not exist -/
